@@ -1233,15 +1233,19 @@ struct ScaleCase {
     /// the last updates that are only in the WAL
     wal_tail: u32,
     multi_thread: bool,
+    /// every 50th key carries a 1.5 - 3 MiB value (one of them only in the WAL, followed by
+    /// small entries)
+    big_values: bool,
 }
 
 fn scale_cases() -> Vec<ScaleCase> {
     vec![
-        ScaleCase { keys: 70_000, per_key: 1, in_checkpoint: 20_000, segments: 40, wal_tail: 2_000, multi_thread: false },
-        ScaleCase { keys: 100_000, per_key: 1, in_checkpoint: 20_000, segments: 48, wal_tail: 3_000, multi_thread: true },
-        ScaleCase { keys: 150_000, per_key: 1, in_checkpoint: 25_000, segments: 60, wal_tail: 1_000, multi_thread: false },
-        ScaleCase { keys: 100, per_key: 1_000, in_checkpoint: 20_000, segments: 30, wal_tail: 2_000, multi_thread: false },
-        ScaleCase { keys: 100, per_key: 1_000, in_checkpoint: 20_000, segments: 30, wal_tail: 2_000, multi_thread: true },
+        ScaleCase { keys: 70_000, per_key: 1, in_checkpoint: 20_000, segments: 40, wal_tail: 2_000, multi_thread: false, big_values: false },
+        ScaleCase { keys: 100_000, per_key: 1, in_checkpoint: 20_000, segments: 48, wal_tail: 3_000, multi_thread: true, big_values: false },
+        ScaleCase { keys: 150_000, per_key: 1, in_checkpoint: 25_000, segments: 60, wal_tail: 1_000, multi_thread: false, big_values: false },
+        ScaleCase { keys: 100, per_key: 1_000, in_checkpoint: 20_000, segments: 30, wal_tail: 2_000, multi_thread: false, big_values: false },
+        ScaleCase { keys: 100, per_key: 1_000, in_checkpoint: 20_000, segments: 30, wal_tail: 2_000, multi_thread: true, big_values: false },
+        ScaleCase { keys: 200, per_key: 1, in_checkpoint: 60, segments: 3, wal_tail: 50, multi_thread: false, big_values: true },
     ]
 }
 
@@ -1330,7 +1334,12 @@ fn check_scale(case: &ScaleCase, ctx: &mut CaseCtx<'_>) -> Result<(), String> {
                 }
             } else {
                 let expiry = if x % 9 == 0 { Some(1000 * (1 + x % 1000)) } else { None };
-                d.push(shards[sh].record_write(key.clone(), SDS::new(x.to_le_bytes().to_vec()), expiry));
+                let val = if case.big_values && i % 50 == 8 {
+                    worldgen::Payload::Big { len: 1_500_000 + (i as u32 % 3) * 800_000 + i as u32, seed: i as u8 }.bytes()
+                } else {
+                    x.to_le_bytes().to_vec()
+                };
+                d.push(shards[sh].record_write(key.clone(), SDS::new(val), expiry));
             }
         }
     }
@@ -1392,8 +1401,18 @@ fn check_scale(case: &ScaleCase, ctx: &mut CaseCtx<'_>) -> Result<(), String> {
     // WAL: the tail that was never streamed + an overlap with the last live segment
     let wal = InMemoryWalStore::new();
     {
-        let mut rot = WalRotator::new(wal.clone(), 1 << 20).map_err(|e| e.to_string())?;
+        // 16 MiB files: small entries follow a big one inside the same file
+        let mut rot = WalRotator::new(wal.clone(), 16 << 20).map_err(|e| e.to_string())?;
         let from = (n - n_wal).saturating_sub(500).max(n_ck);
+        if case.big_values {
+            let big_wal_only = d[n - n_wal..]
+                .iter()
+                .filter(|x| x.value.get().map(|v| v.len() > (1 << 20)).unwrap_or(false))
+                .count();
+            if big_wal_only == 0 || d[n - 1].value.get().map(|v| v.len() > 64).unwrap_or(false) {
+                return Err("harness: no value above 1 MiB that is only in the WAL and followed by a small entry".into());
+            }
+        }
         for x in &d[from..] {
             let e = WalEntry::from_delta(x, x.value.timestamp.time).map_err(|e| e.to_string())?;
             rot.append(&e).map_err(|e| e.to_string())?;
@@ -1444,7 +1463,7 @@ fn check_scale(case: &ScaleCase, ctx: &mut CaseCtx<'_>) -> Result<(), String> {
     };
     ctx.add_evaluations((stats.deltas_replayed as usize + ck_keys + wal_n) as u64);
     ctx.label(if case.multi_thread { "multi_thread_runtime" } else { "current_thread_runtime" });
-    ctx.label(if case.per_key > 1 { "many_updates_per_key" } else { "many_keys" });
+    ctx.label(if case.big_values { "values_above_1_mib" } else if case.per_key > 1 { "many_updates_per_key" } else { "many_keys" });
 
     // ---- the node holds exactly the merge of what was persisted
     let (want, got) = (state_sum(&truth), state_sum(&snapshot));
@@ -1927,7 +1946,7 @@ fn main() {
     s.run_cases("boundary", s.scale(1_400, 60_000), boundary_case, check_boundary);
     s.describe_check("lifecycle", "1-3 process lifetimes over one store wired as the binary does (recover, start_workers, set_delta_sink, commands, graceful shutdown): what a restarted node serves = what the previous process served last; non-trivial = >= 2 sessions with writes");
     s.run_cases("lifecycle", s.scale(400, 12_000), life_case, check_lifecycle);
-    s.describe_check("scale", "fixed size, not work-factor scaled: 70 000 / 100 000 / 150 000 distinct keys (checkpoint of 20-25k keys over compacted segments, 40-60 live segments, a WAL tail) and 100 000 updates on 100 keys, recovered in one burst through StreamingIntegration::recover + the binary's WAL replay into a fresh node on a current-thread and on a multi-thread runtime; snapshot_state() count + checksum over sorted (key, value, stamps), sampled GET/HGETALL, number of keys listed by KEYS * vs the ground-truth fold");
+    s.describe_check("scale", "fixed size, not work-factor scaled: 70 000 / 100 000 / 150 000 distinct keys (checkpoint of 20-25k keys over compacted segments, 40-60 live segments, a WAL tail) and 100 000 updates on 100 keys, and 200 keys of which four carry 1.5-3 MiB values (one only in the WAL), recovered in one burst through StreamingIntegration::recover + the binary's WAL replay into a fresh node on a current-thread and on a multi-thread runtime; snapshot_state() count + checksum over sorted (key, value, stamps), sampled GET/HGETALL, number of keys listed by KEYS * vs the ground-truth fold");
     s.run_enumerated("scale", scale_cases().into_iter(), check_scale);
     s.describe_check(
         "race",
